@@ -509,6 +509,19 @@ func main() {
 		name := "corpus-" + kf.ID
 		progs = append(progs, &progCase{name: name, dir: lib.WorkDir("C14", name), pkg: "vc14/" + kf.ID, src: string(src), fixedKey: kf.Key})
 	}
+	// 1b. regression shapes (corpus/c14_shapes/<name>/main.go): racy programs that the unchanged tree classifies
+	// correctly; a local classification of a racing line is an ordinary VIOLATION keyed by program and line
+	if shapes, err := os.ReadDir(filepath.Join(lib.Root(), "corpus", "c14_shapes")); err == nil {
+		for _, d := range shapes {
+			src, err := os.ReadFile(filepath.Join(lib.Root(), "corpus", "c14_shapes", d.Name(), "main.go"))
+			if err != nil {
+				continue
+			}
+			name := "shape-" + d.Name()
+			progs = append(progs, &progCase{name: name, dir: lib.WorkDir("C14", name), pkg: "vc14/" + name, src: string(src)})
+			rep.Count("shape-corpus-programs")
+		}
+	}
 	// 2. generated programs
 	rnd := lib.Rand("c14-conc")
 	nProgs, perProg := 2, 30
